@@ -1258,8 +1258,11 @@ class Connection(ConnectionEventsTarget, inspection.Inspectable["Inspector"]):
         """
 
         if self._transaction:
+            # a transaction that is inactive but still attached (its COMMIT
+            # failed) is closed without a ROLLBACK; tell the pool the
+            # connection was reset only if a rollback was really emitted
+            skip_reset = self._transaction.is_active
             self._transaction.close()
-            skip_reset = True
         else:
             skip_reset = False
 
